@@ -619,9 +619,9 @@ def plan(tier, seed):
     q = tier == "quick"
     tasks = [("grid", {}), ("zeros", {})]
     for _ in range(8):
-        tasks.append(("values", {"examples": 1000 if q else 8000}))
+        tasks.append(("values", {"examples": 1000 if q else 30000}))
     for _ in range(5):
-        tasks.append(("packets", {"examples": 300 if q else 3000}))
-    for _ in range(2):
-        tasks.append(("decoded", {"examples": 300 if q else 5000}))
+        tasks.append(("packets", {"examples": 300 if q else 10000}))
+    for _ in range(2 if q else 6):
+        tasks.append(("decoded", {"examples": 300 if q else 15000}))
     return tasks
